@@ -572,8 +572,8 @@ def _mods():
     from . import C05, C06, C07, C08, C09, C10, C11, C12, C13, C14, C15, C17, C18, C19, C20
     M = {}
 
-    def add(qual, module, src, why, nested=()):
-        M[qual] = dict(module=module, src=src, why=why, nested=tuple(nested))
+    def add(qual, module, src, why, nested=(), normalize=None):
+        M[qual] = dict(module=module, src=src, why=why, nested=tuple(nested), normalize=normalize)
     add('cooler.create._create.create', 'cooler.create._create', C13.REF_CREATE, 'reference model of create() (see C13)')
     add('cooler.create._create.write_info', 'cooler.create._create', C13.REF_WRITE_INFO, 'attributes written in one update, magic included')
     add('cooler.create._create.create_from_unordered', 'cooler.create._create', C06.REF_UNORDERED, 'two-pass external sort (see C06)')
@@ -618,6 +618,35 @@ def _mods():
     add('cooler.parallel.MultiplexDataPipe.run', 'cooler.parallel', C11.REF_PIPE_RUN, 'run (see C11)')
     add('cooler.parallel.MultiplexDataPipe.prepare', 'cooler.parallel', C11.REF_PIPE_PREPARE, 'prepare (see C11)')
     add('cooler.parallel.MultiplexDataPipe.__copy__', 'cooler.parallel', C11.REF_PIPE_COPY, 'copy (see C11)')
+    add('cooler.util.parse_humanized', 'cooler.util', C19.REF_HUMANIZED, 'numeral x unit, exactly (see C19)', normalize=C19._exact)
+    add('cooler.util.parse_region_string', 'cooler.util', C19.REF_REGION_STRING, 'region grammar (see C19)',
+        nested=[('_tokenize', '_tokenize'), ('_check_token', '_check_token'), ('_expect', '_expect')])
+    add('cooler.util.read_chromsizes', 'cooler.util', C20.REF_READ_CHROMSIZES, 'chromsizes reader (see C20)')
+    add('cooler.cli._util.parse_bins', 'cooler.cli._util', C20.REF_PARSE_BINS, 'BINS argument (see C20)')
+    add('cooler.cli.makebins.makebins', 'cooler.cli.makebins', C20.REF_MAKEBINS, 'makebins (see C20)')
+    add('cooler.create._create._rename_chroms', 'cooler.create._create', C18.REF_RENAME_INNER, 'renaming (see C18)')
+    add('cooler.create._create.rename_chroms', 'cooler.create._create', C18.REF_RENAME, 'renaming (see C18)')
+    add('cooler.create._ingest._sanitize_pixels', 'cooler.create._ingest', C05.REF_SANITIZE_PIXELS, 'pixel sanitiser (see C05)')
+    add('cooler.fileops.is_cooler', 'cooler.fileops', __import__('cverif.props.common', fromlist=['x']).REF_IS_COOLER, 'recogniser is total (see C15)')
+    add('cooler.fileops.list_coolers', 'cooler.fileops', __import__('cverif.props.common', fromlist=['x']).REF_LIST_COOLERS, 'listing (see C15)',
+        nested=[('_check_cooler', '_check_cooler')])
+    add('cooler.fileops.list_scool_cells', 'cooler.fileops', C15.REF_LIST_CELLS, 'cell listing (see C15/C17)')
+    add('cooler.fileops.cp', 'cooler.fileops', C15.REF_CP, 'copy wrapper')
+    add('cooler.fileops.mv', 'cooler.fileops', C15.REF_MV, 'move wrapper')
+    add('cooler.fileops.ln', 'cooler.fileops', C15.REF_LN, 'link wrapper')
+    add('cooler.fileops.visititems', 'cooler.fileops', C15.REF_VISIT, 'traversal', nested=[('_visititems', '_visititems')])
+    from . import C16
+    add('cooler.cli.dump.dump', 'cooler.cli.dump', C16.REF_DUMP, 'dump (see C16)')
+    add('cooler.cli.dump.make_annotator', 'cooler.cli.dump', C12.REF_MAKE_ANNOTATOR, 'dump annotator (see C12/C16)', nested=[('annotator', 'annotator')])
+    add('cooler.cli.load.load', 'cooler.cli.load', C16.REF_LOAD, 'load (see C16)')
+    add('cooler.cli.cload.pairs', 'cooler.cli.cload', C16.REF_PAIRS, 'cload pairs (see C16)')
+    add('cooler.cli._util.parse_field_param', 'cooler.cli._util', C16.REF_FIELD_PARAM, 'field spec (see C16)')
+    add('cooler._reduce.geomprog', 'cooler._reduce', C09.REF_GEOM, 'geometric progression')
+    add('cooler._reduce.niceprog', 'cooler._reduce', C09.REF_NICE, 'nice progression')
+    add('cooler.parallel.chunkgetter.__init__', 'cooler.parallel', C11.REF_GETTER_INIT, 'getter flags')
+    add('cooler.parallel.MultiplexDataPipe.__init__', 'cooler.parallel', C11.REF_PIPE_INIT, 'pipe state')
+    add('cooler.parallel.MultiplexDataPipe.gather', 'cooler.parallel', C11.REF_PIPE_GATHER, 'gather')
+    add('cooler.core._selectors.RangeSelector1D.__init__', 'cooler.core._selectors', C14.REF_SEL_INIT, 'selector state')
     for n, src in C10.REF_FILTERS.items():
         add(f'cooler._balance.{n}', 'cooler._balance', src, 'pixel-level filter (see C10)')
     add('cooler._balance._balance_genomewide', 'cooler._balance', C10.REF_GENOMEWIDE, 'sweep (see C10)')
@@ -671,25 +700,59 @@ ATTACH = {
 }
 
 
+# functions that carry a recorded finding (or are decided by structural rules that accept
+# alternative implementations) are compared / decided only in their home property module
+EXCLUDE_AUTO = {
+    'cooler.create._ingest._sanitize_records',      # F4, home C05
+    'cooler._balance._marginalize',                 # F16, home C10
+    'cooler.util.get_binsize',                      # structural rule (alternative implementations accepted)
+    'cooler.core._selectors._IndexingMixin._process_slice',   # F13, case analysis
+    'cooler._reduce.preferred_sequence',
+}
+
+
+def _auto(ctx, prop, lib):
+    """Every library function that lives in a file the property is anchored in."""
+    import os
+    from ..sweeps import anchor_files
+    files = set(anchor_files(prop))
+    out = []
+    for qual in lib:
+        if qual in EXCLUDE_AUTO or not ctx.repo.has_func(qual):
+            continue
+        rel = os.path.relpath(ctx.repo.func(qual).file, ctx.repo.root)
+        if rel in files:
+            out.append(qual)
+    return out
+
+
 def run_for(ctx, prop):
     """Compare the attached functions of ``prop`` that were not compared yet in this run."""
-    done = {ob['rule'] for ob in ctx.obligations}
     lib = dict(LIB)
     lib.update(_mods())
+    from . import refs_misc
+    for q, r in refs_misc.REFS.items():
+        lib.setdefault(q, dict(module=r['module'], src=r['src'], why=r['why'], nested=()))
     n = 0
-    for qual in ATTACH.get(prop, []):
+    quals = list(ATTACH.get(prop, []))
+    for q in _auto(ctx, prop, lib):
+        if q not in quals:
+            quals.append(q)
+    for qual in quals:
         r = lib[qual]
         short = qual.replace('cooler.', '')
         rule = f'REF.{short}'
         # skip when the property module already compared this very function with this reference
-        already = [ob for ob in ctx.obligations if ob['where'].endswith(' ' + qual) and ('#' in ob['instance'] or 'effect' in ob['instance'])
-                   and not ob['rule'].startswith(('REF.', 'SUP.'))]
+        already = [ob for ob in ctx.obligations if ob['where'].endswith(' ' + qual) and
+                   (ob['instance'].split('#')[0] in ('raise', 'return', 'yield', 'yield_from', 'store_sub', 'store_attr', 'aug_sub',
+                                                     'aug_attr', 'del', 'call', 'break', 'continue', 'changed-effect', 'missing-effect',
+                                                     'extra-effect', 'store_global'))]
         if already:
             continue
         fa = ctx.fa(qual)
         if r['nested']:
             ref = analyze_source(ctx.repo, r['module'], r['src'])
-            compare(ctx, rule, fa, None, ref_fa=ref, why=r['why'])
+            compare(ctx, rule, fa, None, ref_fa=ref, why=r['why'], normalize=r.get('normalize'))
             ren = sibling_renames(fa, ref)
             for an, rn in r['nested']:
                 if an not in fa.nested or rn not in ref.nested_analyses:
@@ -698,6 +761,6 @@ def run_for(ctx, prop):
                     continue
                 compare(ctx, f'{rule}.{an}', ctx.fa(fa.nested[an]), None, ref_fa=ref.nested_analyses[rn], why=r['why'], extra_rename=ren)
         else:
-            compare(ctx, rule, fa, r['src'], module=r['module'], why=r['why'])
+            compare(ctx, rule, fa, r['src'], module=r['module'], why=r['why'], normalize=r.get('normalize'))
         n += 1
     return n
